@@ -111,14 +111,19 @@ CHECKS = {
         'Q(zeta_8)) and the kernel decides that x, y, z, h, s, sdg, t, tdg, id, sx, sxdg, cx (both argument orders), cz, cy, swap, ch, ccx (15-gate '
         'Clifford+T expansion = Toffoli), cswap and rx/ry/rz/cu1/crz at representable angles denote their textbook matrices (C19_qelib_*); an '
         'undefined name is an error, never the identity (C19_undefined_gate); stdgates.inc has no sxdg (C19_stdgates3_no_sxdg); classical registers '
-        'are little-endian integers and writing a bit changes exactly that bit (C19_creg_value, C19_setBit_get, C19_setBit_other). T2: '
+        'are little-endian integers and writing a bit changes exactly that bit (C19_creg_value, C19_setBit_get, C19_setBit_other). Props.C19b: the parametric '
+        'spellings Cirq prints, expanded symbolically by the same expandGate with angles in half turns, equal the documented matrices of Spec/GateDocs for EVERY parameter value over any '
+        'commutative ring with a lawful phase map: rx(pi*t) = Rx / X**t, ry(pi*t) = Y**t, rz(pi*t) = u1 = Z**t, ry(pi/4) rx(pi*t) ry(-pi/4) = H**t, u3(-t, p+1/2, -p-1/2) and the u2 spellings at '
+        'exponent +-1/2 = PhasedX(t, p), and QasmUGate\'s Rz Ry Rz decomposition with its phase correction = U(theta, phi, lambda) (C19_emit_*, C19_qasm_u_gate); '
+        'NonVacuity/ComplexModel.lean (the only file importing Mathlib) proves that R, C with e^{i pi x} satisfy the hypotheses (Lawful, LawfulQ, LawfulQ8, Lawful2); the emission stream '
+        'checks that Cirq prints exactly those spellings. T2: '
         'Circuit.to_qasm text (both versions, random qubit_order and precision) is read by an independent syntactic reader and interpreted by the '
         'compiled Lean semantics; its unitary must equal, up to global phase and within the requested precision, the Lean ordered product of the '
         'circuit\'s operation matrices (C01), and for measured circuits (invert masks, repeated keys, classical controls, resets) the joint '
         'distribution of the classical registers must equal that of the last record of each key under the Lean branching semantics (C02).',
         'Trusted: Lean kernel; harness/qasm_reader.py (syntax) + harness + driver; Spec/Qasm.lean as transcription of qelib1.inc (Qiskit-extended) '
-        'with the OpenQASM matrices of U and CX; parameterised gates (rx, ry, rz, u*, crz, cu1 at generic angles) are exercised by T2 on floats '
-        'only; T2 sees generated circuits only.',
+        'with the OpenQASM matrices of U and CX and Spec/GateDocs as transcription of the docstrings; the multi-qubit decompositions Cirq falls back to (generic two-qubit powers, matrix gates) are '
+        'exercised by T2 on floats only; T2 sees generated circuits only.',
         'Lean 4 proof (kernel-decided exact evaluation of the standard library; register laws) + differential correspondence through an independent reader',
         'DESIGN.md §3 C19',
     ),
@@ -340,7 +345,7 @@ def main():
         )
     man = {
         'version': 1,
-        'setup_cmd': 'cd lean && lake build CirqVerif driver',
+        'setup_cmd': 'cd lean && lake build CirqVerif driver NonVacuity',
         'hooks': {
             'guard': 'CIRQ_VERIF',
             'enable': 'no source hooks: checks import /repo working-tree packages in-process (PYTHONPATH) and observe public APIs',
